@@ -6,7 +6,7 @@
    elsewhere. *)
 From Coq Require Import ZArith List String Bool Lia Permutation.
 From TV Require Import Py.Prelude Model.Schema Model.ImplInput Model.ImplExec Model.SpecExec
-     Proofs.CollectRefine Proofs.ExecRefine.
+     Proofs.CollectRefine Proofs.ExecRefine Proofs.MixedFields.
 Import ListNotations.
 Open Scope string_scope.
 Open Scope list_scope.
@@ -19,7 +19,7 @@ Variable U : usercode.
 Variable cfg : config.
 (* full = true: exact accounting (needs every sibling executed); full = false: inclusion only *)
 Variable full : bool.
-Hypothesis Hmode : full = true -> parent_concurrently cfg = true.
+Hypothesis Hmode : full = true -> forall t k ns, field_conc cfg t k ns = true.
 
 Definition opaths (o : list (list pkey)) : list (option (list pkey)) := map Some o.
 (* where a travelling exception will be located: where it already is, or at the current position *)
@@ -170,6 +170,149 @@ Proof.
         exists l'. split; [reflexivity|split; [exact Hl'|exact Hp2]].
 Qed.
 
+(* per-field settings, inclusion only: what is reported (or travels) is an origin *)
+Ltac isub Hfull :=
+  unfold rel in *; let x := fresh "x" in intros x;
+  repeat match goal with H : forall y, (In y _ -> In y _) /\ _ |- _ => specialize (H x) end;
+  rewrite ?Hfull in *; rewrite ?reported_app, ?raised_at_app, ?opaths_app in *; rewrite ?in_app_iff in *;
+  split; [tauto|intros Hc; discriminate Hc].
+
+Lemma mixed_pass1_acct isc (rf : string -> list fnode -> M (option pyval)) sf (fp : string -> list pkey) :
+  full = false ->
+  (forall k ns, Af (fp k) (rf k ns) (sf k ns)) -> forall fs s rkv ro,
+  spec_fields sf fs = (rkv, ro, false) ->
+  exists E, s_errors (snd (mixed_pass1 isc rf fs s)) = s_errors s ++ E /\
+    match fst (mixed_pass1 isc rf fs s) with
+    | OVal slots => Forall2 (slot_ok isc sf) fs slots /\ rel (reported E) (opaths ro)
+    | OExc l => rkv = None /\ all_located l /\ rel (reported E ++ raised_at [] l) (opaths ro)
+    | OCrash _ => False
+    end.
+Proof.
+  intros Hfull H. induction fs as [|[k nodes] rest IH]; intros s rkv ro; cbn [spec_fields mixed_pass1].
+  - intros E. inversion E. exists []. rewrite app_nil_r. split; [reflexivity|]. split; [constructor|]. intros y. tauto.
+  - destruct (spec_fields sf rest) as [[rkv0 ro0] rc0] eqn:Er.
+    destruct (isc k nodes) eqn:Ec.
+    + assert (Hrc : forall x y, (match sf k nodes with
+                                 | None => (rkv0, ro0, rc0)
+                                 | Some SCrash => (None, ro0, true)
+                                 | Some (SFail o) => (None, o ++ ro0, rc0)
+                                 | Some (SVal v o) => (match rkv0 with Some kv => Some ((k, v) :: kv) | None => None end, o ++ ro0, rc0)
+                                 end) = (x, y, false) -> rc0 = false /\ (rkv0 = None -> x = None) /\ (forall z, In z ro0 -> In z y)).
+      { intros x y. destruct (sf k nodes) as [[v o|o|]|]; intros E; inversion E; subst; repeat split; auto;
+          try (intros ->; reflexivity); intros z Hz; apply in_or_app; now right. }
+      intros E. destruct (Hrc _ _ E) as (-> & Hn & Hsub).
+      destruct (IH s _ _ eq_refl) as (E1 & HE1 & Hr).
+      destruct (mixed_pass1 isc rf rest s) as [[slots|l|e] s1]; cbn [fst snd] in *.
+      * exists E1. split; [exact HE1|]. destruct Hr as [HF Hp]. split; [constructor; [exact Ec|exact HF]|].
+        unfold rel in *. intros x. specialize (Hp x). rewrite Hfull in *. split; [|intros Hc; discriminate Hc].
+        intros Hx. unfold opaths. apply in_map_iff. destruct Hp as [Hp _]. specialize (Hp Hx). unfold opaths in Hp.
+        apply in_map_iff in Hp. destruct Hp as (z & <- & Hz). exists z. split; [reflexivity|now apply Hsub].
+      * exists E1. split; [exact HE1|]. destruct Hr as (Hn0 & Hl & Hp). split; [now apply Hn|]. split; [exact Hl|].
+        unfold rel in *. intros x. specialize (Hp x). rewrite Hfull in *. split; [|intros Hc; discriminate Hc].
+        intros Hx. unfold opaths. apply in_map_iff. destruct Hp as [Hp _]. specialize (Hp Hx). unfold opaths in Hp.
+        apply in_map_iff in Hp. destruct Hp as (z & <- & Hz). exists z. split; [reflexivity|now apply Hsub].
+      * contradiction.
+    + pose proof (H k nodes s) as Hk.
+      destruct (rf k nodes s) as [r s1] eqn:E1r. cbn [fst snd] in Hk.
+      destruct (sf k nodes) as [[v o|o|]|] eqn:Esf; intros Eq; inversion Eq; subst; clear Eq.
+      * destruct Hk as (E1 & HE1 & -> & Hp1). destruct (IH s1 _ _ eq_refl) as (E2 & HE2 & Hr).
+        destruct (mixed_pass1 isc rf rest s1) as [[slots|l|e] s2]; cbn [fst snd] in *.
+        -- exists (E1 ++ E2). split; [now rewrite HE2, HE1, app_assoc|]. destruct Hr as [HF Hp2].
+           split; [constructor; [|exact HF]; split; [exact Ec|]; cbn [fst snd]; now rewrite Esf|]. isub Hfull.
+        -- exists (E1 ++ E2). split; [now rewrite HE2, HE1, app_assoc|]. destruct Hr as (Hn0 & Hl & Hp2).
+           split; [now rewrite Hn0|]. split; [exact Hl|]. isub Hfull.
+        -- contradiction.
+      * destruct Hk as (E1 & HE1 & l & -> & Hl & Hp1). cbn [fst snd].
+        rewrite (raised_at_located (fp k) [] l Hl) in Hp1.
+        exists E1. split; [exact HE1|]. split; [reflexivity|]. split; [exact Hl|]. isub Hfull.
+      * destruct Hk as [HE1 ->]. destruct (IH s1 _ _ eq_refl) as (E2 & HE2 & Hr).
+        destruct (mixed_pass1 isc rf rest s1) as [[slots|l|e] s2]; cbn [fst snd] in *.
+        -- exists E2. split; [now rewrite HE2, HE1|]. destruct Hr as [HF Hp2].
+           split; [constructor; [|exact HF]; split; [exact Ec|]; cbn [fst snd]; now rewrite Esf|exact Hp2].
+        -- exists E2. split; [now rewrite HE2, HE1|]. exact Hr.
+        -- contradiction.
+Qed.
+
+Lemma mixed_pass2_acct isc (rf : string -> list fnode -> M (option pyval)) sf (fp : string -> list pkey) :
+  full = false ->
+  (forall k ns, Af (fp k) (rf k ns) (sf k ns)) -> forall fs slots, Forall2 (slot_ok isc sf) fs slots -> forall s rkv ro,
+  spec_fields sf fs = (rkv, ro, false) ->
+  exists E, s_errors (snd (mixed_pass2 rf fs slots s)) = s_errors s ++ E /\
+    match rkv with
+    | Some kv => fst (mixed_pass2 rf fs slots s) = OVal kv /\ rel (reported E) (opaths ro)
+    | None => exists l, fst (mixed_pass2 rf fs slots s) = OExc l /\ all_located l /\
+                        rel (reported E ++ raised_at [] l) (opaths ro)
+    end.
+Proof.
+  intros Hfull H fs slots HF. induction HF as [|[k nodes] slot rest srest Hs HF IH]; intros s rkv ro; cbn [spec_fields mixed_pass2].
+  - intros E. inversion E. exists []. rewrite app_nil_r. split; [reflexivity|]. split; [reflexivity|]. intros y. tauto.
+  - destruct (spec_fields sf rest) as [[rkv0 ro0] rc0] eqn:Er.
+    destruct slot as [o|].
+    + destruct Hs as [_ Hs]. cbn [fst snd] in Hs.
+      destruct (sf k nodes) as [[v ov|ov|]|]; try contradiction; intros Eq; inversion Eq; subst; clear Eq.
+      * destruct (IH s _ _ eq_refl) as (E2 & HE2 & Hr). destruct (mixed_pass2 rf rest srest s) as [rs s2]. cbn [fst snd] in *.
+        destruct rkv0 as [kv|].
+        -- destruct Hr as [-> Hp2]. cbn [fst snd]. exists E2. split; [exact HE2|]. split; [reflexivity|]. isub Hfull.
+        -- destruct Hr as (l & -> & Hl & Hp2). cbn [fst snd]. exists E2. split; [exact HE2|].
+           exists l. split; [reflexivity|]. split; [exact Hl|]. isub Hfull.
+      * destruct (IH s _ _ eq_refl) as (E2 & HE2 & Hr). destruct (mixed_pass2 rf rest srest s) as [rs s2]. cbn [fst snd] in *.
+        destruct rkv as [kv|].
+        -- destruct Hr as [-> Hp2]. cbn [fst snd]. exists E2. split; [exact HE2|]. split; [reflexivity|exact Hp2].
+        -- destruct Hr as (l & -> & Hl & Hp2). cbn [fst snd]. exists E2. split; [exact HE2|].
+           exists l. split; [reflexivity|]. split; [exact Hl|exact Hp2].
+    + pose proof (H k nodes s) as Hk.
+      destruct (rf k nodes s) as [r s1] eqn:E1r. cbn [fst snd] in Hk.
+      destruct (sf k nodes) as [[v o|o|]|]; intros Eq; inversion Eq; subst; clear Eq.
+      * destruct Hk as (E1 & HE1 & -> & Hp1). destruct (IH s1 _ _ eq_refl) as (E2 & HE2 & Hr).
+        destruct (mixed_pass2 rf rest srest s1) as [rs s2]. cbn [fst snd] in *.
+        destruct rkv0 as [kv|].
+        -- destruct Hr as [-> Hp2]. cbn [fst snd]. exists (E1 ++ E2). split; [now rewrite HE2, HE1, app_assoc|].
+           split; [reflexivity|isub Hfull].
+        -- destruct Hr as (l & -> & Hl & Hp2). cbn [fst snd]. exists (E1 ++ E2). split; [now rewrite HE2, HE1, app_assoc|].
+           exists l. split; [reflexivity|]. split; [exact Hl|isub Hfull].
+      * destruct Hk as (E1 & HE1 & l & -> & Hl & Hp1). destruct (IH s1 _ _ eq_refl) as (E2 & HE2 & Hr).
+        destruct (mixed_pass2 rf rest srest s1) as [rs s2]. cbn [fst snd] in *.
+        rewrite (raised_at_located (fp k) [] l Hl) in Hp1.
+        destruct rkv0 as [kv|].
+        -- destruct Hr as [-> Hp2]. cbn [fst snd]. exists (E1 ++ E2). split; [now rewrite HE2, HE1, app_assoc|].
+           exists l. split; [reflexivity|]. split; [exact Hl|isub Hfull].
+        -- destruct Hr as (l' & -> & Hl' & Hp2). cbn [fst snd]. exists (E1 ++ E2). split; [now rewrite HE2, HE1, app_assoc|].
+           exists (l ++ l'). split; [reflexivity|].
+           split; [apply Forall_app; split; assumption|isub Hfull].
+      * destruct Hk as [HE1 ->]. destruct (IH s1 _ _ eq_refl) as (E2 & HE2 & Hr).
+        destruct (mixed_pass2 rf rest srest s1) as [rs s2]. cbn [fst snd] in *.
+        destruct rkv as [kv|].
+        -- destruct Hr as [-> Hp2]. cbn [fst snd]. exists E2. split; [now rewrite HE2, HE1|].
+           split; [reflexivity|exact Hp2].
+        -- destruct Hr as (l' & -> & Hl' & Hp2). cbn [fst snd]. exists E2. split; [now rewrite HE2, HE1|].
+           exists l'. split; [reflexivity|split; [exact Hl'|exact Hp2]].
+Qed.
+
+Lemma mixed_acct isc (rf : string -> list fnode -> M (option pyval)) sf (fp : string -> list pkey) :
+  full = false ->
+  (forall k ns, Af (fp k) (rf k ns) (sf k ns)) -> forall fs s rkv ro,
+  spec_fields sf fs = (rkv, ro, false) ->
+  exists E, s_errors (snd (exec_fields_mixed isc rf fs s)) = s_errors s ++ E /\
+    match rkv with
+    | Some kv => fst (exec_fields_mixed isc rf fs s) = OVal kv /\ rel (reported E) (opaths ro)
+    | None => exists l, fst (exec_fields_mixed isc rf fs s) = OExc l /\ all_located l /\
+                        rel (reported E ++ raised_at [] l) (opaths ro)
+    end.
+Proof.
+  intros Hfull H fs s rkv ro Es. unfold exec_fields_mixed.
+  destruct (mixed_pass1_acct isc rf sf fp Hfull H fs s _ _ Es) as (E1 & HE1 & H1).
+  destruct (mixed_pass1 isc rf fs s) as [[slots|l|e] s1]; cbn [fst snd] in *.
+  - destruct H1 as [HF Hp1].
+    destruct (mixed_pass2_acct isc rf sf fp Hfull H fs slots HF s1 _ _ Es) as (E2 & HE2 & H2).
+    destruct (mixed_pass2 rf fs slots s1) as [r2 s2]. cbn [fst snd] in *.
+    exists (E1 ++ E2). split; [now rewrite HE2, HE1, app_assoc|].
+    destruct rkv as [kv|].
+    + destruct H2 as [-> Hp2]. split; [reflexivity|]. isub Hfull.
+    + destruct H2 as (l & -> & Hl & Hp2). exists l. split; [reflexivity|]. split; [exact Hl|]. isub Hfull.
+  - destruct H1 as (-> & Hl & Hp). exists E1. split; [exact HE1|]. exists l. split; [reflexivity|]. split; [exact Hl|exact Hp].
+  - contradiction.
+Qed.
+
 Definition rf_acct (rf : rfun) (sf : sfun) : Prop :=
   forall otype value opath k ns, Af (opath ++ [KName k]) (rf otype value opath k ns) (sf otype value opath k ns).
 
@@ -181,19 +324,18 @@ Proof.
     [|exact I].
   destruct (spec_fields (fun k ns => sf otype value opath k ns) sub) as [[rkv ro] rc] eqn:Es.
   destruct rc; [destruct rkv; exact I|].
-  set (run := if parent_concurrently cfg then _ else _).
+  set (run := exec_fields_mixed _ _ sub s).
   assert (Hx : exists E, s_errors (snd run) = s_errors s ++ E /\
     match rkv with
     | Some kv => fst run = OVal kv /\ rel (reported E) (opaths ro)
     | None => exists l, fst run = OExc l /\ all_located l /\ rel (reported E ++ raised_at [] l) (opaths ro)
     end).
-  { unfold run. destruct (Bool.bool_dec (parent_concurrently cfg) true) as [Ec|Ec].
-    - rewrite Ec. exact (conc_acct (fun k ns => rf otype value opath k ns) _ (fun k => opath ++ [KName k])
+  { unfold run. destruct (Bool.bool_dec full true) as [Ef|Ef].
+    - rewrite (mixed_all_conc _ _ sub s (Hmode Ef otype)).
+      exact (conc_acct (fun k ns => rf otype value opath k ns) _ (fun k => opath ++ [KName k])
               (fun k ns => H otype value opath k ns) sub s _ _ Es).
-    - apply Bool.not_true_is_false in Ec.
-      assert (Hfull : full = false).
-      { apply Bool.not_true_is_false. intros Hf. pose proof (Hmode Hf) as Hm. rewrite Ec in Hm. discriminate Hm. }
-      rewrite Ec. exact (seq_acct (fun k ns => rf otype value opath k ns) _ (fun k => opath ++ [KName k]) Hfull
+    - apply Bool.not_true_is_false in Ef.
+      exact (mixed_acct _ (fun k ns => rf otype value opath k ns) _ (fun k => opath ++ [KName k]) Ef
               (fun k ns => H otype value opath k ns) sub s _ _ Es). }
   destruct Hx as (E & HE & Hr). clearbody run.
   destruct run as [r s1]. cbn [fst snd] in *.
@@ -551,7 +693,6 @@ Proof.
     - destruct Hr as (l & -> & Hl & Hp). eexists. split; [reflexivity|]. split; [reflexivity|].
       cbn [r_errors add_errors s_errors]. rewrite HE. cbn [app].
       fold (reported (E ++ map finalize l)). rewrite reported_app, (reported_finalize [] l Hl). exact Hp. }
-  pose proof (conc_acct rf sf (fun k => [] ++ [KName k]) Hf (group_fields flat []) st0 _ _ Es) as Hc.
   assert (Hs : full = false ->
                exists E, s_errors (snd (exec_fields_seq rf (group_fields flat []) st0)) = s_errors st0 ++ E /\
                match rkv with
@@ -560,19 +701,17 @@ Proof.
                                    rel (reported E ++ raised_at [] l) (opaths ro)
                end).
   { intros Hfull. exact (seq_acct rf sf (fun k => [] ++ [KName k]) Hfull Hf (group_fields flat []) st0 _ _ Es). }
-  assert (Hcs : exists E, s_errors (snd ((if parent_concurrently cfg then exec_fields_conc rf (group_fields flat [])
-                                          else exec_fields_seq rf (group_fields flat [])) st0)) = s_errors st0 ++ E /\
+  assert (Hcs : exists E, s_errors (snd (exec_fields_mixed (field_conc cfg rt) rf (group_fields flat []) st0)) = s_errors st0 ++ E /\
                match rkv with
-               | Some kv => fst ((if parent_concurrently cfg then exec_fields_conc rf (group_fields flat [])
-                                          else exec_fields_seq rf (group_fields flat [])) st0) = OVal kv /\ rel (reported E) (opaths ro)
-               | None => exists l, fst ((if parent_concurrently cfg then exec_fields_conc rf (group_fields flat [])
-                                          else exec_fields_seq rf (group_fields flat [])) st0) = OExc l /\ all_located l /\
+               | Some kv => fst (exec_fields_mixed (field_conc cfg rt) rf (group_fields flat []) st0) = OVal kv /\ rel (reported E) (opaths ro)
+               | None => exists l, fst (exec_fields_mixed (field_conc cfg rt) rf (group_fields flat []) st0) = OExc l /\ all_located l /\
                                    rel (reported E ++ raised_at [] l) (opaths ro)
                end).
-  { destruct (Bool.bool_dec (parent_concurrently cfg) true) as [Ec|Ec].
-    - rewrite Ec. exact Hc.
-    - apply Bool.not_true_is_false in Ec. rewrite Ec. apply Hs.
-      apply Bool.not_true_is_false. intros Hf'. pose proof (Hmode Hf') as Hm. rewrite Ec in Hm. discriminate Hm. }
+  { destruct (Bool.bool_dec full true) as [Ef|Ef].
+    - rewrite (mixed_all_conc _ _ (group_fields flat []) st0 (Hmode Ef rt)).
+      exact (conc_acct rf sf (fun k => [] ++ [KName k]) Hf (group_fields flat []) st0 _ _ Es).
+    - apply Bool.not_true_is_false in Ef.
+      exact (mixed_acct _ rf sf (fun k => [] ++ [KName k]) Ef Hf (group_fields flat []) st0 _ _ Es). }
   destruct (o_kind op).
   - apply Hrun. exact Hcs.
   - apply Hrun. apply Hs. apply Bool.not_true_is_false. intros Hf'. now apply (Hk Hf').
@@ -583,7 +722,7 @@ End Origins.
 
 (* exact accounting: queries / subscription sources with every sibling executed *)
 Theorem execute_operation_accounts_exact sch doc vs U cfg op root d o :
-  parent_concurrently cfg = true -> o_kind op <> OpMutation ->
+  (forall t k ns, field_conc cfg t k ns = true) -> o_kind op <> OpMutation ->
   spec_execute_operation sch doc vs U op root = Some (d, o) ->
   exists r, execute_operation sch doc vs U cfg op root = OVal r /\ r_data r = d /\
             sameset (map g_path (r_errors r)) (map Some o).
@@ -601,7 +740,7 @@ Theorem execute_operation_accounts_incl sch doc vs U cfg op root d o :
             forall e, In e (r_errors r) -> exists p, g_path e = Some p /\ In p o.
 Proof.
   intros Hs.
-  assert (Hm : false = true -> parent_concurrently cfg = true) by discriminate.
+  assert (Hm : false = true -> forall t k ns, field_conc cfg t k ns = true) by discriminate.
   assert (Hk : false = true -> o_kind op <> OpMutation) by discriminate.
   destruct (execute_operation_accounts sch doc vs U cfg false Hm op root d o Hk Hs) as (r & Hr & Hd & Hp).
   exists r. split; [exact Hr|]. split; [exact Hd|]. intros e Hin.
